@@ -400,7 +400,7 @@ class CEval:
             self.calls.append((name, argv))
             if self.inline and name in self.tu.funcs and self._depth < 3 and name != self.fname:
                 pnames = [p.get("name") for p in self.tu.params(name)]
-                sub = CEval(self.tu, name, dict(zip(pnames, argv)), inline=True, _depth=self._depth + 1)
+                sub = type(self)(self.tu, name, dict(zip(pnames, argv)), inline=True, _depth=self._depth + 1)
                 sub.run()
                 self.calls += sub.calls
                 self.copies += sub.copies
